@@ -48,7 +48,7 @@ func (b builder) buildResponse(buf alloc.Buffer, result []byte, st status.Status
 	w2.Code(string(st.Code))
 	w2.Message(st.Message)
 	if err := w2.End(); err != nil {
-		return prpc.Message{}, nil
+		return prpc.Message{}, err
 	}
 	if result != nil {
 		w1.Result().Any(result)
